@@ -251,6 +251,43 @@ def witness_created_parent_is_empty(prog, fn: ast.AST) -> bool:
     return bool(e) and all(cfg.all_paths_pass(c, cut_edges=e) for c in calls)
 
 
+def witness_created_parent_has_no_inherit(prog, fn: ast.AST) -> bool:
+    """_set_value_in_attrset: `raise ValueError('Cannot overwrite inherited attribute …')` after
+    `_resolve_npath_parent(create_missing=True)` needs `_inherits_name(parent, final)` to be true, i.e. an Inherit entry in the
+    parent's values; a parent created by the resolver is `AttributeSet(values=[])`, and _inherits_name returns True only from
+    inside its loop over `.values` — so when something was created the raise cannot run."""
+    from sa.cfg import CFG, edges_establishing
+    cfg = CFG(fn)
+    unpack = [n for n in ast.walk(fn) if isinstance(n, ast.Assign) and isinstance(n.targets[0], ast.Tuple) and len(n.targets[0].elts) == 2
+              and isinstance(n.value, ast.Call) and callee(n.value) == "_resolve_npath_parent"]
+    if len(unpack) != 1:
+        return False
+    parent, final = (norm(x) for x in unpack[0].targets[0].elts)
+    raises = [n for n in cfg.nodes if isinstance(n.ast, ast.Raise) and "inherited attribute" in norm(n.ast) and final in norm(n.ast)]
+    if not raises:
+        return False
+    e = edges_establishing(cfg, lambda a, t: norm(a) == f"_inherits_name({parent}, {final})" and t is True)
+    if not e or not all(cfg.all_paths_pass(r, cut_edges=e) for r in raises):
+        return False
+    # the helper answers True only from inside a loop over the set's values
+    h = prog.funcs.get("_inherits_name")
+    if h is None:
+        return False
+    hp = h.params()[0]
+    for rt in [x for x in ast.walk(h.node) if isinstance(x, ast.Return)]:
+        if isinstance(rt.value, ast.Constant) and rt.value.value is False:
+            continue
+        inside = any(isinstance(l, ast.For) and norm(l.iter) == f"{hp}.values" and any(rt is y for y in ast.walk(l)) for l in ast.walk(h.node))
+        if not inside:
+            return False
+    # created parents are empty attribute sets
+    rp = prog.funcs.get("_resolve_npath_parent")
+    if rp is None:
+        return False
+    created = [c for c in ast.walk(rp.node) if isinstance(c, ast.Call) and callee(c) == "AttributeSet"]
+    return bool(created) and all(any(k.arg == "values" and isinstance(k.value, ast.List) and not k.value.elts for k in c.keywords) for c in created)
+
+
 INFEASIBLE_PAIRS = [
     # (function, alpha mutation statement, alpha raise-statement prefix, reason, witness)
     ("_resolve_npath_parent", "$1[$2] = $3",  # current[key] = nested
@@ -272,6 +309,10 @@ INFEASIBLE_PAIRS = [
      "assign-through needs an existing binding in the parent; a created parent is empty", witness_created_parent_is_empty),
     ("_set_value_in_attrset", "_resolve_npath_parent($1, $2, create_missing=True)", "$1.value = $2",
      "assign-through needs an existing binding in the parent; a created parent is empty", witness_created_parent_is_empty),
+    ("_set_value_in_attrset", "($1, $2) = _resolve_npath_parent($3, $4, create_missing=True)", "raise ValueError(f'Cannot overwrite inherited attribute",
+     "the refusal needs an Inherit entry in the parent; a created parent is an empty set", witness_created_parent_has_no_inherit),
+    ("_set_value_in_attrset", "_resolve_npath_parent($1, $2, create_missing=True)", "raise ValueError(f'Cannot overwrite inherited attribute",
+     "the refusal needs an Inherit entry in the parent; a created parent is an empty set", witness_created_parent_has_no_inherit),
 ]
 
 
